@@ -141,14 +141,21 @@ func (c *ConfigManager) ReloadFromRaw(data []byte) (err error) {
 
 	info.ConfigHash = fmt.Sprint(hash)
 	info.Config.GlobalConfig.ExternalLabels = eLb
-	c.currentConfig = info
 
-	for _, f := range c.callbacks {
-		if err := f(c.currentConfig); err != nil {
+	// the config (and its hash) is only reported once every callback took it: a sidecar whose prometheus
+	// failed to reload must not look in sync, the coordinator sends the config again as long as the hash differs.
+	// the callbacks that had taken it already are given the reported config back, so that what is reported
+	// is what runs
+	for i, f := range c.callbacks {
+		if err := f(info); err != nil {
+			for _, done := range c.callbacks[:i] {
+				_ = done(c.currentConfig)
+			}
 			return err
 		}
 	}
 
+	c.currentConfig = info
 	return nil
 }
 
